@@ -1,6 +1,7 @@
 (** * Pickle: dump/load round-trips (C12): [_dump_manager]/[_load_manager],
       [_dump_bdd]/[load] *)
 From DD Require Export Views.
+From DD Require Import Vars.
 
 (** ** Declaring variables with explicit levels in a manager that has only
     the terminal node.  In the middle of such a loop the levels have gaps
@@ -425,96 +426,16 @@ Proof. intros. unfold flip, absn. case_decide; lia. Qed.
 Lemma triple_eta t : t = Triple (t_lvl t) (t_lo t) (t_hi t).
 Proof. by destruct t. Qed.
 
-(** [find_or_add] on the components of a stored node finds that node and
-    leaves the manager untouched (reordering disabled) *)
-Lemma find_or_add_hit s n t :
-  Inv s → last_len s = None → succ s !! n = Some t → n ≠ 1%positive →
-  find_or_add (t_lvl t) (t_lo t) (t_hi t) s = (Ok (Z.pos n), s).
-Proof.
-  intros HI Hoff Ht Hn1. destruct (inv_node _ HI _ _ Ht Hn1) as (Hl&Hvl&Hhp&Hvh&_&_&Hne).
-  unfold find_or_add.
-  assert (Er : request_reordering s = (Ok tt, s)) by (unfold request_reordering; by rewrite Hoff).
-  rewrite (bind_ok _ _ _ _ _ Er). cbn [bind get].
-  rewrite decide_False by lia.
-  rewrite (proj2 (mem_valid s _) Hvl), (proj2 (mem_valid s _) Hvh). cbn [negb].
-  rewrite (decide_False (P := (t_hi t < 0)%Z)) by lia.
-  rewrite !Z.mul_1_l. rewrite decide_False by done.
-  rewrite <- triple_eta. apply (inv_pred _ HI) in Ht. rewrite Ht. done.
-Qed.
-
-Section same.
-Context (s : st) (HI : Inv s) (Hoff : last_len s = None).
-Context (sl : list (positive * triple)) (Hnf : nodes_file s sl).
-Context (lm : gmap nat nat) (Hlm : ∀ i, i < nvars s → lm !! i = Some i).
-
-Lemma fsucc_lookup k t :
+Lemma fsucc_lookup s sl k t : nodes_file s sl →
   (list_to_map sl : gmap positive triple) !! k = Some t ↔ (k, t) ∈ sl.
-Proof. symmetry. apply elem_of_list_to_map. apply Hnf. Qed.
+Proof. intros Hnf. symmetry. apply elem_of_list_to_map. apply Hnf. Qed.
 
-Lemma file_node k : k ∈ sl.*1 → ∃ t, (k, t) ∈ sl ∧ succ s !! k = Some t.
+Lemma file_node s sl k : nodes_file s sl →
+  k ∈ sl.*1 → ∃ t, (k, t) ∈ sl ∧ succ s !! k = Some t.
 Proof.
-  intros Hk. apply elem_of_list_fmap in Hk as ([k' t]&->&Hin). exists t.
+  intros Hnf Hk. apply elem_of_list_fmap in Hk as ([k' t]&->&Hin). exists t.
   split; [done|]. by apply (nf_sub _ _ Hnf).
 Qed.
-
-Definition um_same (umap : gmap positive Z) : Prop :=
-  ∀ k x, umap !! k = Some x → x = Z.pos k.
-
-Lemma load_rec_same fuel : ∀ u umap,
-  u ≠ 0%Z → (absn u = 1%positive ∨ absn u ∈ sl.*1) → um_same umap →
-  cnt sl (lvl_of s u) < fuel →
-  ∃ umap', load_rec fuel u (list_to_map sl) umap lm s = (Ok (u, umap'), s) ∧
-    um_same umap' ∧ (∀ k, is_Some (umap !! k) → is_Some (umap' !! k)) ∧
-    (absn u ≠ 1%positive → is_Some (umap' !! absn u)).
-Proof.
-  induction fuel as [|f IH]; intros u umap Hu0 Hin Hum Hf; [lia|].
-  cbn [load_rec]. rewrite decide_False by done.
-  destruct (decide (absn u = 1%positive)) as [E1|Hn1].
-  { exists umap. by split_and!. }
-  destruct Hin as [?|Hin]; [done|].
-  destruct (file_node _ Hin) as (t&Hint&Ht).
-  assert (Hlvl : lvl_of s u = t_lvl t) by (unfold lvl_of; by rewrite Ht).
-  destruct (inv_node _ HI _ _ Ht Hn1) as (Hl&Hvl&Hhp&Hvh&Hll&Hlh&Hne).
-  destruct (nf_closed _ _ Hnf _ _ Hint Hn1) as [Hcl Hch].
-  assert (Hmiss : ∀ umap0, um_same umap0 →
-     (∀ k, is_Some (umap !! k) → is_Some (umap0 !! k)) → umap0 = umap →
-     ∃ umap', (t <- of_opt EKey ((list_to_map sl : gmap positive triple) !! absn u) ;;
-       j <- of_opt EKey (lm !! t_lvl t) ;;
-       pc <- load_rec f (t_lo t) (list_to_map sl) umap lm ;; let '(p, umap) := pc in
-       qc <- load_rec f (t_hi t) (list_to_map sl) umap lm ;; let '(q, umap) := qc in
-       r <- find_or_add j p q ;;
-       assert (bool_decide (0 < r)%Z) ;;;
-       ret (flip r u, <[absn u := r]> umap)) s = (Ok (u, umap'), s) ∧
-     um_same umap' ∧ (∀ k, is_Some (umap !! k) → is_Some (umap' !! k)) ∧
-     (absn u ≠ 1%positive → is_Some (umap' !! absn u))).
-  { intros _ _ _ _.
-    rewrite (proj2 (fsucc_lookup _ _) Hint). cbn [of_opt].
-    rewrite (bind_ok _ _ s t s) by done.
-    rewrite (Hlm _ Hl). cbn [of_opt]. rewrite (bind_ok _ _ s (t_lvl t) s) by done.
-    destruct (IH (t_lo t) umap (proj1 Hvl) (or_intror Hcl) Hum) as (um1&E1&Hum1&Hd1&_).
-    { rewrite Hlvl in Hf. pose proof (cnt_lt sl _ t (lvl_of s (t_lo t)) Hint Hll). lia. }
-    rewrite (bind_ok _ _ _ _ _ E1).
-    destruct (IH (t_hi t) um1 (proj1 Hvh) (or_intror Hch) Hum1) as (um2&E2&Hum2&Hd2&_).
-    { rewrite Hlvl in Hf. pose proof (cnt_lt sl _ t (lvl_of s (t_hi t)) Hint Hlh). lia. }
-    rewrite (bind_ok _ _ _ _ _ E2).
-    rewrite (bind_ok _ _ _ _ _ (find_or_add_hit s _ t HI Hoff Ht Hn1)).
-    rewrite bool_decide_eq_true_2 by lia. cbn [assert].
-    rewrite (bind_ok _ _ s tt s) by done. rewrite flip_abs by done.
-    eexists. split; [reflexivity|]. split_and!.
-    - intros k x. rewrite lookup_insert_Some. intros [[<- <-]|[_ Hk]]; [done|by apply Hum2].
-    - intros k Hk. destruct (decide (absn u = k)) as [<-|?].
-      + rewrite lookup_insert. by eexists.
-      + rewrite lookup_insert_ne by done. by apply Hd2, Hd1.
-    - intros _. rewrite lookup_insert. by eexists. }
-  destruct (decide (0 < u)%Z) as [Hpos|Hneg]; [|by apply (Hmiss umap)].
-  destruct (umap !! absn u) as [r|] eqn:Er; [|by apply (Hmiss umap)].
-  pose proof (Hum _ _ Er) as ->.
-  rewrite bool_decide_eq_true_2 by lia. cbn [assert].
-  rewrite (bind_ok _ _ s tt s) by done. rewrite flip_abs by done.
-  exists umap. split_and!; try done.
-Qed.
-
-End same.
 
 Lemma mapM_ok {A B} (f : A → MS B) (g : A → B) (l : list A) s :
   (∀ x, x ∈ l → f x s = (Ok (g x), s)) → mapM f l s = (Ok (g <$> l), s).
@@ -547,116 +468,62 @@ Definition node_step (n : nat) (fsucc : gmap positive triple) (lm : gmap nat nat
     if decide (is_Some (umap !! u)) then ret umap else
     r <- load_rec n (Z.pos u) fsucc umap lm ;; ret (snd r).
 
-Lemma node_loop_same s sl lm :
-  Inv s → last_len s = None → nodes_file s sl →
-  (∀ i, i < nvars s → lm !! i = Some i) →
-  ∀ (l : list (positive * triple)) umap,
-    (∀ k t, (k, t) ∈ l → k ∈ sl.*1) → um_same umap → is_Some (umap !! 1%positive) →
-    ∃ umap', foldM (node_step (S (length sl)) (list_to_map sl) lm) umap l s = (Ok umap', s) ∧
-      um_same umap' ∧ (∀ k, is_Some (umap !! k) → is_Some (umap' !! k)) ∧
-      (∀ k t, (k, t) ∈ l → is_Some (umap' !! k)).
-Proof.
-  intros HI Hoff Hnf Hlm. induction l as [|[k t] l IH]; intros umap Hl Hum H1.
-  { exists umap. split_and!; try done. intros ?? H. by apply elem_of_nil in H. }
-  cbn [foldM].
-  assert (∃ um1, node_step (S (length sl)) (list_to_map sl) lm umap (k, t) s = (Ok um1, s) ∧
-            um_same um1 ∧ (∀ k', is_Some (umap !! k') → is_Some (um1 !! k')) ∧
-            is_Some (um1 !! k)) as (um1&E1&Hum1&Hd1&Hk1).
-  { unfold node_step. destruct (decide (is_Some (umap !! k))) as [Hs|Hns].
-    { exists umap. by split_and!. }
-    destruct (load_rec_same s HI Hoff sl Hnf lm Hlm (S (length sl)) (Z.pos k) umap)
-      as (um1&E&Hum1&Hd1&Hk1); try done.
-    - right. rewrite absn_pos. apply (Hl k t). apply elem_of_list_here.
-    - pose proof (cnt_le sl (lvl_of s (Z.pos k))). lia.
-    - exists um1. rewrite (bind_ok _ _ _ _ _ E). split_and!; try done.
-      rewrite absn_pos in Hk1. apply Hk1. intros ->. done. }
-  rewrite (bind_ok _ _ _ _ _ E1).
-  destruct (IH um1) as (um2&E2&Hum2&Hd2&Hk2); [|done|by apply Hd1|].
-  { intros k' t' Hin. apply (Hl k' t'). by apply elem_of_list_further. }
-  exists um2. split_and!; try done.
-  - intros k' Hk'. by apply Hd2, Hd1.
-  - intros k' t' Hin. apply elem_of_cons in Hin as [[= -> ->]|Hin]; [by apply Hd2|by eapply Hk2].
-Qed.
-
-(** ** 5. Loading a dump back into the manager that wrote it *)
-Theorem pickle_roundtrip_same s roots order vorder pf sd :
-  Inv s → last_len s = None → Forall (valid s) (roots_values roots) →
-  dump_pickle roots order vorder s = (Ok pf, sd) →
-  sd = s ∧ load_pickle pf true s = (Ok roots, s).
-Proof.
-  intros HI Hoff Hr Hd.
-  destruct (dump_pickle_inv s roots order vorder pf sd HI Hr Hd)
-    as (->&Eroots&Hvl&Hnf&_&_&Hrin&_).
-  split; [done|]. unfold load_pickle, load_pickle_nodes.
-  destruct (pickle_var_loop (length (pf_vars pf)) (pf_vars pf) s s ∅) as (lm&Elm&Hlm&_).
-  { intros v i. by apply (vfile_lt s). }
-  { apply forM_add_var_idem. intros v i Hin. by apply Hvl. }
-  pose proof (lm_identity s _ lm HI Hvl Hlm) as Hid.
-  destruct (node_loop_same s (pf_succ pf) lm HI Hoff Hnf Hid (pf_succ pf) {[1%positive := 1%Z]})
-    as (umap&Eum&Hum&Hd1&Hk).
-  { intros k t Hin. apply elem_of_list_fmap. by exists (k, t). }
-  { intros k x Hx. apply lookup_singleton_Some in Hx as [<- <-]. done. }
-  { rewrite lookup_singleton. by eexists. }
-  assert (Enodes : (lm <- foldM (fun (lm : gmap nat nat) '(v, i) =>
-            assert (bool_decide (i < length (pf_vars pf))) ;;;
-            j <- add_var v (Some i) ;;
-            ret (<[i := j]> lm)) ∅ (pf_vars pf) ;;
-          foldM (fun umap '(u, _) =>
-            if decide (is_Some (umap !! u)) then ret umap else
-            r <- load_rec (S (length (pf_succ pf))) (Z.pos u) (list_to_map (pf_succ pf)) umap lm ;;
-            ret (snd r)) ({[1%positive := 1%Z]} : gmap positive Z) (pf_succ pf)) s
-          = (Ok umap, s)).
-  { rewrite (bind_ok _ _ _ _ _ Elm). exact Eum. }
-  rewrite (bind_ok _ _ _ _ _ Enodes).
-  assert (Hnode : ∀ u, u ∈ roots_values roots →
-     (if decide (u = 0%Z) then raise EKey else
-      v <- of_opt EKey (umap !! absn u) ;; ret (flip v u)) s = (Ok u, s)).
-  { intros u Hu. assert (Hv : valid s u) by (by eapply Forall_forall in Hr).
-    rewrite decide_False by apply Hv.
-    assert (is_Some (umap !! absn u)) as [x Hx].
-    { apply Hrin in Hu. apply elem_of_list_fmap in Hu as ([k t]&Ek&Hin). cbn in Ek.
-      rewrite Ek. by eapply Hk. }
-    rewrite Hx. cbn [of_opt]. rewrite (bind_ok _ _ s x s) by done.
-    rewrite (Hum _ _ Hx). unfold ret. f_equal. f_equal. apply flip_abs, Hv. }
-  rewrite Eroots. destruct roots as [|l|d]; [done| |].
-  - rewrite (bind_ok _ _ _ _ _ (mapM_ok _ id l s Hnode)). by rewrite list_fmap_id.
-  - erewrite (bind_ok (mapM _ d)); [|apply (mapM_ok _ id)].
-    + by rewrite list_fmap_id.
-    + intros [k u] Hin. rewrite (bind_ok _ _ s u s); [done|]. apply Hnode.
-      cbn. apply elem_of_list_fmap. by exists (k, u).
-Qed.
-
-(** ** Loading into another manager with the same variable order *)
 Lemma valid_flip s x u : valid s x → valid s (flip x u).
 Proof. intros. unfold flip. case_decide; [by apply valid_neg|done]. Qed.
 Lemma lvl_flip s x u : lvl_of s (flip x u) = lvl_of s x.
 Proof. unfold flip. case_decide; [by rewrite lvl_neg|done]. Qed.
 
-Section load.
-Context (s : st) (HI : Inv s).
-Context (sl : list (positive * triple)) (Hnf : nodes_file s sl).
-Context (lm : gmap nat nat) (Hlm : ∀ i, i < nvars s → lm !! i = Some i).
+(** ** Reordering requests are disabled around the node loop ([guarded]):
+    the loop runs with [last_len = None] whatever the setting of the
+    receiver, and the setting is restored afterwards *)
+Lemma set_last_len_id (s : st) : s <| last_len := last_len s |> = s.
+Proof. by destruct s. Qed.
 
-(** receivers: consistent, same variable order as [s], reordering disabled *)
-Definition recv (r : st) : Prop :=
+Lemma guarded_ok {A} (m : MS A) s a s1 :
+  m (s <| last_len := None |>) = (Ok a, s1) → last_len s1 = None →
+  guarded m s = (Ok a, s1 <| last_len := last_len s |>).
+Proof.
+  intros E H1. unfold guarded. cbn [bind get].
+  destruct (last_len s) as [ll|] eqn:Ell.
+  - cbn [bind modify].
+    assert (Hc : catch m (s <| last_len := None |>) = (Ok (Ok a), s1))
+      by (unfold catch; by rewrite E).
+    rewrite (bind_ok _ _ _ _ _ Hc). reflexivity.
+  - assert (Es : s <| last_len := None |> = s) by (rewrite <- Ell; apply set_last_len_id).
+    assert (Es1 : s1 <| last_len := None |> = s1) by (rewrite <- H1; apply set_last_len_id).
+    transitivity (m (s <| last_len := None |>)); [by rewrite Es|].
+    rewrite E. f_equal. symmetry. exact Es1.
+Qed.
+
+Lemma Inv_set_ll s x : Inv (s <| last_len := x |>) ↔ Inv s.
+Proof. split; apply Inv_same; by repeat split. Qed.
+Lemma denv_set_ll s x u ρ : denv (s <| last_len := x |>) u ρ = denv s u ρ.
+Proof. unfold denv. by apply D_same. Qed.
+
+(** ** Receivers of a load *)
+
+(** receivers: consistent, the variable order of [s], reordering disabled *)
+Definition recv (s r : st) : Prop :=
   Inv r ∧ vars r = vars s ∧ lvl2var r = lvl2var s ∧ last_len r = None.
 
-Lemma recv_nvars r : recv r → nvars r = nvars s.
+Lemma recv_nvars s r : recv s r → nvars r = nvars s.
 Proof. intros (_&E&_). unfold nvars. by rewrite E. Qed.
 
-Lemma recv_step r r' : recv r → Inv r' → extends r r' → frame r r' → recv r'.
+Lemma recv_step s r r' : recv s r → Inv r' → extends r r' → frame r r' → recv s r'.
 Proof.
   intros (_&E1&E2&E3) HI' (_&Ev&El) (Ef&_). split_and!; [done|congruence..].
 Qed.
 
-(** every file node already loaded is mapped to a positive reference of the
-    receiver denoting the same function of the levels *)
-Definition um_ok (r : st) (umap : gmap positive Z) : Prop :=
+(** a loaded table in a receiver with the SAME variable order: every file
+    node is mapped to a positive reference denoting the same function of the
+    levels (used by the JSON loader, which builds the nodes with
+    [find_or_add] directly) *)
+Definition um_ok (s r : st) (umap : gmap positive Z) : Prop :=
   ∀ k x, umap !! k = Some x →
     (0 < x)%Z ∧ valid r x ∧ valid s (Z.pos k) ∧
     lvl_of s (Z.pos k) ≤ lvl_of r x ∧ ∀ a, D r x a = D s (Z.pos k) a.
 
-Lemma um_ok_extends r r' umap : Inv r → extends r r' → um_ok r umap → um_ok r' umap.
+Lemma um_ok_extends s r r' umap : Inv r → extends r r' → um_ok s r umap → um_ok s r' umap.
 Proof.
   intros HIr He Hum k x Hx. destruct (Hum k x Hx) as (?&Hv&?&?&HD).
   split_and!; try done.
@@ -665,14 +532,70 @@ Proof.
   - intros a. by rewrite (D_extends r r').
 Qed.
 
+(** the references returned by a load denote, by variable NAMES, what the
+    dumped ones denoted in [s] *)
+Definition same_fun (s r : st) (u u' : Z) : Prop :=
+  valid r u' ∧ ∀ ρ, denv r u' ρ = denv s u ρ.
+
+Lemma same_fun_extends s r r' u x :
+  Inv r → extends r r' → same_fun s r u x → same_fun s r' u x.
+Proof.
+  intros HIr He [Hv HD]. split; [by apply (valid_extends r r')|].
+  intros ρ. rewrite <- HD. unfold denv. pose proof He as (_&_&El). rewrite <- El.
+  by apply D_extends.
+Qed.
+
+Lemma same_fun_set_ll s r o u x : same_fun s (r <| last_len := o |>) u x ↔ same_fun s r u x.
+Proof.
+  unfold same_fun. split; intros [Hv HD]; (split; [exact Hv|]); intros ρ;
+    [rewrite <- (denv_set_ll r o)|rewrite denv_set_ll]; apply HD.
+Qed.
+
+Lemma same_fun_flip s r u x :
+  Inv s → Inv r → valid s u → same_fun s r (Z.pos (absn u)) x → same_fun s r u (flip x u).
+Proof.
+  intros HI HIr Hu [Hv HD]. split; [by apply valid_flip|]. intros ρ.
+  specialize (HD ρ). unfold denv in *. rewrite (D_flip r HIr x u _ Hv), HD.
+  symmetry. by apply D_abs.
+Qed.
+
+Lemma same_fun_term s r u :
+  Inv s → Inv r → u ≠ 0%Z → absn u = 1%positive → same_fun s r u u.
+Proof.
+  intros HI HIr Hu E1. split.
+  - split; [done|]. rewrite E1, (inv_term _ HIr). by eexists.
+  - intros ρ. unfold denv. by rewrite (D_term r HIr u _ E1), (D_term s HI u _ E1).
+Qed.
+
+(** ** The node loop.  [s]: the manager that wrote the file; the receiver has
+    the variable order of [r0] — ANY order: [lm] sends the level of a variable
+    in [s] to the level of the variable of the same NAME in [r0]. *)
+Section load.
+Context (s : st) (HI : Inv s).
+Context (sl : list (positive * triple)) (Hnf : nodes_file s sl).
+Context (r0 : st) (lm : gmap nat nat).
+Context (Hlm : ∀ i v, lvl2var s !! i = Some v →
+                 ∃ j, lm !! i = Some j ∧ lvl2var r0 !! j = Some v).
+
+(** every file node already loaded is mapped to a reference of the receiver
+    denoting the same function of the variable names *)
+Definition um_fn (r : st) (umap : gmap positive Z) : Prop :=
+  ∀ k x, umap !! k = Some x → valid s (Z.pos k) ∧ same_fun s r (Z.pos k) x.
+
+Lemma um_fn_extends r r' umap : Inv r → extends r r' → um_fn r umap → um_fn r' umap.
+Proof.
+  intros HIr He Hum k x Hx. destruct (Hum k x Hx) as (?&?).
+  split; [done|]. by apply (same_fun_extends s r r').
+Qed.
+
 Lemma load_rec_spec fuel : ∀ u umap r,
-  recv r → valid s u → (absn u = 1%positive ∨ absn u ∈ sl.*1) → um_ok r umap →
+  recv r0 r → valid s u → (absn u = 1%positive ∨ absn u ∈ sl.*1) → um_fn r umap →
   cnt sl (lvl_of s u) < fuel →
   ∃ p umap' r', load_rec fuel u (list_to_map sl) umap lm r = (Ok (p, umap'), r') ∧
-    recv r' ∧ extends r r' ∧ frame r r' ∧ um_ok r' umap' ∧
+    recv r0 r' ∧ extends r r' ∧ frame r r' ∧ um_fn r' umap' ∧
     (∀ k, is_Some (umap !! k) → is_Some (umap' !! k)) ∧
     (absn u ≠ 1%positive → is_Some (umap' !! absn u)) ∧
-    valid r' p ∧ lvl_of s u ≤ lvl_of r' p ∧ ∀ a, D r' p a = D s u a.
+    same_fun s r' u p.
 Proof.
   induction fuel as [|f IH]; intros u umap r Hrecv Hv Hin Hum Hf; [lia|].
   pose proof Hrecv as (HIr&Evars&El2v&Hoff).
@@ -680,101 +603,104 @@ Proof.
   destruct (decide (absn u = 1%positive)) as [E1|Hn1].
   { exists u, umap, r. split; [done|]. split; [done|]. split; [reflexivity|].
     split; [reflexivity|]. split; [done|]. split; [done|]. split; [done|].
-    assert (Hvr : valid r u).
-    { split; [apply Hv|]. rewrite E1, (inv_term _ HIr). by eexists. }
-    split; [done|]. split.
-    - rewrite (lvl_term s HI u E1), (lvl_term r HIr u E1). by rewrite (recv_nvars r).
-    - intros a. by rewrite (D_term r HIr u a E1), (D_term s HI u a E1). }
+    apply same_fun_term; [done|done|apply Hv|done]. }
   destruct Hin as [?|Hin]; [done|].
-  destruct (file_node s sl Hnf _ Hin) as (t&Hint&Ht).
+  destruct (file_node s sl _ Hnf Hin) as (t&Hint&Ht).
   assert (Hlvl : lvl_of s u = t_lvl t) by (unfold lvl_of; by rewrite Ht).
   destruct (inv_node _ HI _ _ Ht Hn1) as (Hl&Hvl&Hhp&Hvh&Hll&Hlh&Hne).
   destruct (nf_closed _ _ Hnf _ _ Hint Hn1) as [Hcl Hch].
+  destruct (proj1 (inv_lvls _ HI _) Hl) as [x Hx].
+  destruct (Hlm _ _ Hx) as (j&Hj&Hjx).
   assert (Hmiss : ∀ umap0, umap0 = umap →
      ∃ p umap' r',
      (t <- of_opt EKey ((list_to_map sl : gmap positive triple) !! absn u) ;;
        j <- of_opt EKey (lm !! t_lvl t) ;;
        pc <- load_rec f (t_lo t) (list_to_map sl) umap lm ;; let '(p, umap) := pc in
        qc <- load_rec f (t_hi t) (list_to_map sl) umap lm ;; let '(q, umap) := qc in
-       r <- find_or_add j p q ;;
-       assert (bool_decide (0 < r)%Z) ;;;
+       g <- find_or_add j (-1) 1 ;;
+       r <- ite g q p ;;
        ret (flip r u, <[absn u := r]> umap)) r = (Ok (p, umap'), r') ∧
-     recv r' ∧ extends r r' ∧ frame r r' ∧ um_ok r' umap' ∧
+     recv r0 r' ∧ extends r r' ∧ frame r r' ∧ um_fn r' umap' ∧
      (∀ k, is_Some (umap !! k) → is_Some (umap' !! k)) ∧
      (absn u ≠ 1%positive → is_Some (umap' !! absn u)) ∧
-     valid r' p ∧ lvl_of s u ≤ lvl_of r' p ∧ ∀ a, D r' p a = D s u a).
+     same_fun s r' u p).
   { intros _ _.
-    rewrite (proj2 (fsucc_lookup s sl Hnf _ _) Hint). cbn [of_opt].
+    rewrite (proj2 (fsucc_lookup s sl _ _ Hnf) Hint). cbn [of_opt].
     rewrite (bind_ok _ _ r t r) by done.
-    rewrite (Hlm _ Hl). cbn [of_opt]. rewrite (bind_ok _ _ r (t_lvl t) r) by done.
+    rewrite Hj. cbn [of_opt]. rewrite (bind_ok _ _ r j r) by done.
     destruct (IH (t_lo t) umap r Hrecv Hvl (or_intror Hcl) Hum)
-      as (p&um1&r1&E1&Hrecv1&He1&Hf1&Hum1&Hd1&_&Hpv&Hpl&HpD).
+      as (p&um1&r1&E1&Hrecv1&He1&Hf1&Hum1&Hd1&_&Hp).
     { rewrite Hlvl in Hf. pose proof (cnt_lt sl _ t (lvl_of s (t_lo t)) Hint Hll). lia. }
     rewrite (bind_ok _ _ _ _ _ E1).
     destruct (IH (t_hi t) um1 r1 Hrecv1 Hvh (or_intror Hch) Hum1)
-      as (q&um2&r2&E2&Hrecv2&He2&Hf2&Hum2&Hd2&_&Hqv&Hql&HqD).
+      as (q&um2&r2&E2&Hrecv2&He2&Hf2&Hum2&Hd2&_&Hq).
     { rewrite Hlvl in Hf. pose proof (cnt_lt sl _ t (lvl_of s (t_hi t)) Hint Hlh). lia. }
     rewrite (bind_ok _ _ _ _ _ E2).
-    pose proof Hrecv1 as (HI1&_). pose proof Hrecv2 as (HI2&_&_&Hoff2).
-    assert (Hpv2 : valid r2 p) by (by apply (valid_extends r1 r2)).
-    assert (Hpl2 : t_lvl t < lvl_of r2 p) by (rewrite (lvl_extends r1 r2) by done; lia).
-    assert (Hql2 : t_lvl t < lvl_of r2 q) by lia.
-    destruct (find_or_add (t_lvl t) p q r2) as [rx r3] eqn:Ex.
-    pose proof Ex as Ex'.
-    apply find_or_add_spec in Ex' as (HI3&He3&Hf3&Hx); [|done..].
-    destruct rx as [x|e]; [|destruct Hx as (_&[? Hll']&_); congruence].
-    destruct Hx as (Hxv&Hxl&HxD).
-    rewrite (bind_ok _ _ _ _ _ Ex).
-    assert (HDx : ∀ a, D r3 x a = D s (Z.pos (absn u)) a).
-    { intros a. rewrite HxD, HqD, (D_extends r1 r2 p) by done. rewrite HpD.
-      assert (Hvp : valid s (Z.pos (absn u))).
-      { split; [done|]. rewrite absn_pos. by eexists. }
-      rewrite (D_step s HI (Z.pos (absn u)) a t Hvp) by (by rewrite ?absn_pos).
-      rewrite bool_decide_eq_false_2 by lia. by rewrite xorb_false_l. }
-    assert (Hxpos : (0 < x)%Z).
-    { pose proof (D_all_true r3 HI3 x Hxv) as Hat. rewrite HDx in Hat.
-      assert (Hvp : valid s (Z.pos (absn u))).
-      { split; [done|]. rewrite absn_pos. by eexists. }
-      rewrite (D_all_true s HI _ Hvp) in Hat.
-      rewrite bool_decide_eq_true_2 in Hat by lia. symmetry in Hat.
-      by apply bool_decide_eq_true in Hat. }
-    rewrite bool_decide_eq_true_2 by done. cbn [assert].
-    rewrite (bind_ok _ _ r3 tt r3) by done.
-    assert (He13 : extends r r3) by (do 2 (etrans; [eassumption|]); done).
-    assert (Hf13 : frame r r3) by (do 2 (etrans; [eassumption|]); done).
-    eexists _, _, r3. split; [reflexivity|]. split; [by apply (recv_step r)|].
+    pose proof Hrecv1 as (HI1&_). pose proof Hrecv2 as (HI2&Ev2&El2&Hoff2).
+    assert (Hp2 : same_fun s r2 (t_lo t) p) by (by apply (same_fun_extends s r1 r2)).
+    assert (Hj2 : j < nvars r2).
+    { apply (inv_lvls _ HI2). rewrite El2. by eexists. }
+    (* the variable at level [j] of the receiver *)
+    destruct (find_or_add j (-1) 1 r2) as [rg r3] eqn:Eg.
+    pose proof Eg as Eg'.
+    apply find_or_add_spec in Eg' as (HI3&He3&Hf3&Hg);
+      [|done|by apply valid_m1|by apply valid_1|by rewrite (lvl_term r2 HI2)..].
+    destruct rg as [g|e]; [|destruct Hg as (_&[? Hll']&_); congruence].
+    destruct Hg as (Hgv&_&HgD).
+    rewrite (bind_ok _ _ _ _ _ Eg).
+    assert (Hrecv3 : recv r0 r3) by (by apply (recv_step r0 r2 r3)).
+    pose proof Hrecv3 as (_&_&_&Hoff3).
+    assert (Hq3 : valid r3 q) by (apply (valid_extends r2 r3); [done|apply Hq]).
+    assert (Hp3 : valid r3 p) by (apply (valid_extends r2 r3); [done|apply Hp2]).
+    (* [ite] on it *)
+    destruct (ite g q p r3) as [rw r4] eqn:Ew.
+    destruct (ite_spec_off r3 g q p rw r4 HI3 Hgv Hq3 Hp3 Hoff3 Ew)
+      as (w&->&HI4&He4&Hf4&Hwv&HwD).
+    rewrite (bind_ok _ _ _ _ _ Ew).
+    assert (Hrecv4 : recv r0 r4) by (by apply (recv_step r0 r3 r4)).
+    assert (Hvp : valid s (Z.pos (absn u))).
+    { split; [done|]. rewrite absn_pos. by eexists. }
+    assert (Hw : same_fun s r4 (Z.pos (absn u)) w).
+    { split; [done|]. intros ρ. pose proof Hrecv4 as (_&_&El4&_).
+      destruct Hq as [Hqv HqD], Hp2 as [Hpv HpD].
+      specialize (HqD ρ). specialize (HpD ρ). unfold denv in *.
+      rewrite El4. rewrite El2 in HqD, HpD.
+      rewrite HwD, HgD, (D_1 r2 HI2), (D_m1 r2 HI2).
+      rewrite (D_extends r2 r3 q), (D_extends r2 r3 p) by done.
+      rewrite HqD, HpD.
+      rewrite (D_step s HI (Z.pos (absn u)) _ t Hvp) by (by rewrite ?absn_pos).
+      rewrite bool_decide_eq_false_2 by lia. rewrite xorb_false_l.
+      cbv beta. rewrite Hjx, Hx. by destruct (ρ x). }
+    assert (He24 : extends r2 r4) by (by etrans).
+    assert (He14 : extends r r4) by (etrans; [exact He1|]; etrans; [exact He2|]; done).
+    assert (Hf14 : frame r r4)
+      by (etrans; [exact Hf1|]; etrans; [exact Hf2|]; etrans; [exact Hf3|]; done).
+    eexists _, _, r4. split; [reflexivity|]. split; [done|].
     split; [done|]. split; [done|]. split_and!.
-    - intros k y. rewrite lookup_insert_Some. intros [[<- <-]|[_ Hk]].
-      + split; [done|]. split; [done|].
-        split; [split; [done|]; rewrite absn_pos; by eexists|].
-        split; [|done]. change (lvl_of s (Z.pos (absn u))) with (lvl_of s u). lia.
-      + by apply (um_ok_extends r2 r3 um2).
+    - intros k y. rewrite lookup_insert_Some. intros [[<- <-]|[_ Hk]]; [done|].
+      by apply (um_fn_extends r2 r4 um2).
     - intros k Hk. destruct (decide (absn u = k)) as [<-|?].
       + rewrite lookup_insert. by eexists.
       + rewrite lookup_insert_ne by done. by apply Hd2, Hd1.
     - intros _. rewrite lookup_insert. by eexists.
-    - by apply valid_flip.
-    - rewrite lvl_flip. lia.
-    - intros a. rewrite (D_flip r3 HI3 x u a Hxv), HDx. symmetry. by apply D_abs. }
+    - by apply same_fun_flip. }
   destruct (decide (0 < u)%Z) as [Hpos|Hneg]; [|by apply (Hmiss umap)].
-  destruct (umap !! absn u) as [x|] eqn:Ex; [|by apply (Hmiss umap)].
-  destruct (Hum _ _ Ex) as (Hxp&Hxv&_&Hxl&HxD).
-  rewrite bool_decide_eq_true_2 by done. cbn [assert].
-  rewrite (bind_ok _ _ r tt r) by done.
+  destruct (umap !! absn u) as [y|] eqn:Ey; [|by apply (Hmiss umap)].
+  destruct (Hum _ _ Ey) as (_&Hy).
   assert (Eu : Z.pos (absn u) = u) by (unfold absn; lia).
-  assert (Efl : flip x u = x) by (unfold flip; by rewrite decide_False by lia).
+  assert (Efl : flip y u = y) by (unfold flip; by rewrite decide_False by lia).
   rewrite Efl. rewrite Eu in *.
-  exists x, umap, r. split; [done|]. split; [done|]. split; [reflexivity|].
+  exists y, umap, r. split; [done|]. split; [done|]. split; [reflexivity|].
   split; [reflexivity|]. split_and!; try done.
 Qed.
 
 Lemma node_loop_spec :
   ∀ (l : list (positive * triple)) umap r,
-    (∀ k t, (k, t) ∈ l → k ∈ sl.*1) → recv r → um_ok r umap →
+    (∀ k t, (k, t) ∈ l → k ∈ sl.*1) → recv r0 r → um_fn r umap →
     is_Some (umap !! 1%positive) →
     ∃ umap' r', foldM (node_step (S (length sl)) (list_to_map sl) lm) umap l r
                 = (Ok umap', r') ∧
-      recv r' ∧ extends r r' ∧ frame r r' ∧ um_ok r' umap' ∧
+      recv r0 r' ∧ extends r r' ∧ frame r r' ∧ um_fn r' umap' ∧
       (∀ k, is_Some (umap !! k) → is_Some (umap' !! k)) ∧
       (∀ k t, (k, t) ∈ l → is_Some (umap' !! k)).
 Proof.
@@ -783,14 +709,14 @@ Proof.
     split; [reflexivity|]. split_and!; try done. intros ?? H. by apply elem_of_nil in H. }
   cbn [foldM].
   assert (∃ um1 r1, node_step (S (length sl)) (list_to_map sl) lm umap (k, t) r = (Ok um1, r1) ∧
-            recv r1 ∧ extends r r1 ∧ frame r r1 ∧ um_ok r1 um1 ∧
+            recv r0 r1 ∧ extends r r1 ∧ frame r r1 ∧ um_fn r1 um1 ∧
             (∀ k', is_Some (umap !! k') → is_Some (um1 !! k')) ∧
             is_Some (um1 !! k)) as (um1&r1&E1&Hrecv1&He1&Hf1&Hum1&Hd1&Hk1).
   { unfold node_step. destruct (decide (is_Some (umap !! k))) as [Hs|Hns].
     { exists umap, r. split; [done|]. split; [done|]. split; [reflexivity|].
       split; [reflexivity|]. by split_and!. }
     assert (Hk : k ∈ sl.*1) by (apply (Hl k t); apply elem_of_list_here).
-    destruct (file_node s sl Hnf _ Hk) as (t'&_&Ht').
+    destruct (file_node s sl _ Hnf Hk) as (t'&_&Ht').
     destruct (load_rec_spec (S (length sl)) (Z.pos k) umap r Hrecv)
       as (p&um1&r1&E&Hrecv1&He1&Hf1&Hum1&Hd1&Hk1&_); try done.
     - right. by rewrite absn_pos.
@@ -829,49 +755,63 @@ Proof.
   by constructor.
 Qed.
 
-(** the references returned by a load denote, by variable names, what the
-    dumped ones denoted in [s] *)
-Definition same_fun (s r : st) (u u' : Z) : Prop :=
-  valid r u' ∧ ∀ ρ, denv r u' ρ = denv s u ρ.
-
-(** everything after the variable loop *)
-Lemma load_pickle_from s pf roots r0 r :
-  Inv s → Forall (valid s) (roots_values roots) → pf_roots pf = roots →
-  vars_file s (pf_vars pf) → nodes_file s (pf_succ pf) →
-  (∀ u, u ∈ roots_values roots → absn u ∈ (pf_succ pf).*1) →
-  recv s r →
-  forM (pf_vars pf) (fun '(v, l) => add_var v (Some l) ;;; ret tt) r0 = (Ok tt, r) →
-  ∃ roots' r', load_pickle pf true r0 = (Ok roots', r') ∧
-    recv s r' ∧ extends r r' ∧ frame r r' ∧ roots_rel (same_fun s r') roots roots'.
+(** related to the dumped references themselves: equal *)
+Lemma Forall2_eq_in {A} (P : A → A → Prop) (l l' : list A) :
+  (∀ u u', u ∈ l → P u u' → u' = u) → Forall2 P l l' → l' = l.
 Proof.
-  intros HI Hr Eroots Hvl Hnf Hrin Hrecv Hvars.
-  unfold load_pickle, load_pickle_nodes.
-  destruct (pickle_var_loop (length (pf_vars pf)) (pf_vars pf) r0 r ∅) as (lm&Elm&Hlm&_);
-    [|done|].
-  { intros v i. by apply (vfile_lt s). }
-  pose proof (lm_identity s _ lm HI Hvl Hlm) as Hid.
-  destruct (node_loop_spec s HI (pf_succ pf) Hnf lm Hid (pf_succ pf) {[1%positive := 1%Z]} r)
-    as (umap&r'&Eum&Hrecv'&He&Hf&Hum&Hd1&Hk); [|done| | |].
-  { intros k t Hin. apply elem_of_list_fmap. by exists (k, t). }
-  { pose proof Hrecv as (HIr&_). intros k x Hx.
-    apply lookup_singleton_Some in Hx as [<- <-].
-    split; [done|]. split; [by apply valid_1|]. split; [by apply valid_1|].
-    split.
-    - rewrite (lvl_term s HI 1), (lvl_term r HIr 1) by done. by rewrite (recv_nvars s r).
-    - intros a. by rewrite (D_1 r HIr), (D_1 s HI). }
-  { rewrite lookup_singleton. by eexists. }
-  assert (Enodes : (lm <- foldM (fun (lm : gmap nat nat) '(v, i) =>
+  intros HP Hl. induction Hl as [|u u' l l' Hu Hl IH]; [done|]. f_equal.
+  - apply HP; [apply elem_of_list_here|done].
+  - apply IH. intros v v' Hv. apply HP. by apply elem_of_list_further.
+Qed.
+
+Lemma roots_rel_eq (P : Z → Z → Prop) roots roots' :
+  (∀ u u', u ∈ roots_values roots → P u u' → u' = u) →
+  roots_rel P roots roots' → roots' = roots.
+Proof.
+  intros HP Hrel. revert HP. destruct Hrel as [|l l' Hl|d d' Hd]; cbn [roots_values]; intros HP.
+  - done.
+  - f_equal. by apply (Forall2_eq_in P).
+  - f_equal. apply (Forall2_eq_in (fun x y => x.1 = y.1 ∧ P x.2 y.2)); [|done].
+    intros [k u] [k' u'] Hin [Hk Hu]. cbn in Hk, Hu. subst k'. f_equal.
+    apply HP; [|done]. apply elem_of_list_fmap. by exists (k, u).
+Qed.
+
+(** everything after the variable loop, whatever the loop did: [r00] is the
+    receiver before it, [r] after it, [lm] the level map it built; [r] may
+    have dynamic reordering enabled *)
+Lemma load_pickle_from s pf roots (levels : bool) r00 r lm :
+  Inv s → Forall (valid s) (roots_values roots) → pf_roots pf = roots →
+  nodes_file s (pf_succ pf) →
+  (∀ u, u ∈ roots_values roots → absn u ∈ (pf_succ pf).*1) →
+  Inv r →
+  foldM (fun (lm : gmap nat nat) '(v, i) =>
             assert (bool_decide (i < length (pf_vars pf))) ;;;
-            j <- add_var v (Some i) ;;
-            ret (<[i := j]> lm)) ∅ (pf_vars pf) ;;
-          foldM (fun umap '(u, _) =>
-            if decide (is_Some (umap !! u)) then ret umap else
-            r <- load_rec (S (length (pf_succ pf))) (Z.pos u) (list_to_map (pf_succ pf)) umap lm ;;
-            ret (snd r)) ({[1%positive := 1%Z]} : gmap positive Z) (pf_succ pf)) r0
-          = (Ok umap, r')).
-  { rewrite (bind_ok _ _ _ _ _ Elm). exact Eum. }
+            j <- add_var v (if levels then Some i else None) ;;
+            ret (<[i := j]> lm)) ∅ (pf_vars pf) r00 = (Ok lm, r) →
+  (∀ i v, lvl2var s !! i = Some v → ∃ j, lm !! i = Some j ∧ lvl2var r !! j = Some v) →
+  ∃ roots' r', load_pickle pf levels r00 = (Ok roots', r') ∧
+    Inv r' ∧ extends r r' ∧ frame r r' ∧ roots_rel (same_fun s r') roots roots'.
+Proof.
+  intros HI Hr Eroots Hnf Hrin HIr Elm Hlm.
+  unfold load_pickle.
+  set (rN := r <| last_len := None |>).
+  assert (HIN : Inv rN) by (by apply Inv_set_ll).
+  assert (HrecvN : recv rN rN) by (by split_and!).
+  destruct (node_loop_spec s HI (pf_succ pf) Hnf rN lm Hlm (pf_succ pf) {[1%positive := 1%Z]} rN)
+    as (umap&r1&Eum&Hrecv1&He&Hf&Hum&Hd1&Hk); [|done| | |].
+  { intros k t Hin. apply elem_of_list_fmap. by exists (k, t). }
+  { intros k x Hx. apply lookup_singleton_Some in Hx as [<- <-].
+    split; [by apply valid_1|]. by apply same_fun_term. }
+  { rewrite lookup_singleton. by eexists. }
+  pose proof Hrecv1 as (HI1&_&_&Hoff1).
+  set (r' := r1 <| last_len := last_len r |>).
+  assert (Enodes : load_pickle_nodes pf levels r00 = (Ok umap, r')).
+  { unfold load_pickle_nodes. rewrite (bind_ok _ _ _ _ _ Elm).
+    exact (guarded_ok _ r umap r1 Eum Hoff1). }
   rewrite (bind_ok _ _ _ _ _ Enodes).
-  pose proof Hrecv' as (HIr'&_&El2v&_).
+  assert (HIr' : Inv r') by (by apply Inv_set_ll).
+  assert (Hum' : ∀ k x, umap !! k = Some x → same_fun s r' (Z.pos k) x).
+  { intros k x Hx. apply same_fun_set_ll. by apply (Hum k x). }
   assert (Hnode : ∀ u, u ∈ roots_values roots → ∃ u',
      (if decide (u = 0%Z) then raise EKey else
       v <- of_opt EKey (umap !! absn u) ;; ret (flip v u)) r' = (Ok u', r') ∧
@@ -882,10 +822,7 @@ Proof.
     { apply Hrin in Hu. apply elem_of_list_fmap in Hu as ([k t]&Ek&Hin). cbn in Ek.
       rewrite Ek. by eapply Hk. }
     rewrite Hx. cbn [of_opt]. rewrite (bind_ok _ _ r' x r') by done.
-    destruct (Hum _ _ Hx) as (_&Hxv&_&_&HxD).
-    exists (flip x u). split; [done|]. split; [by apply valid_flip|].
-    intros ρ. unfold denv. rewrite El2v.
-    rewrite (D_flip r' HIr' x u _ Hxv), HxD. symmetry. by apply D_abs. }
+    exists (flip x u). split; [done|]. apply same_fun_flip; try done. by apply Hum'. }
   exists (match roots with
           | RNone => RNone
           | RList l => RList ((fun u => flip (default 0%Z (umap !! absn u)) u) <$> l)
@@ -902,7 +839,7 @@ Proof.
     destruct (umap !! absn u) as [x|]; cbn [of_opt default].
     - rewrite (bind_ok _ _ r' x r') by done. unfold ret. by intros [= <-].
     - by intros [=]. }
-  rewrite Eroots. split_and!; try done.
+  rewrite Eroots. split_and!.
   - destruct roots as [|l|d]; [done| |].
     + rewrite (bind_ok _ _ _ _ _ (mapM_ok _ _ l r' (fun u Hu => proj1 (Hnode' u Hu)))). done.
     + erewrite (bind_ok (mapM _ d)); [reflexivity|].
@@ -910,12 +847,26 @@ Proof.
       intros [k u] Hin. cbn [fst snd].
       rewrite (bind_ok _ _ r' (flip (default 0%Z (umap !! absn u)) u) r'); [done|].
       apply Hnode'. cbn. apply elem_of_list_fmap. by exists (k, u).
+  - done.
+  - exact He.
+  - destruct Hf as (_&?&?&?). by split_and!.
   - destruct roots as [|l|d]; constructor.
     + apply Forall2_fmap_r, Forall_Forall2_diag, Forall_forall.
       intros u Hu. by apply Hnode'.
     + apply Forall2_fmap_r, Forall_Forall2_diag, Forall_forall.
       intros [k u] Hin. split; [done|]. apply Hnode'. cbn.
       apply elem_of_list_fmap. by exists (k, u).
+Qed.
+
+(** the level map of a load with [levels=True] into a manager with the
+    variable order of the source *)
+Lemma lm_true s vl (lm : gmap nat nat) r :
+  Inv s → vars_file s vl → (∀ i, i ∈ vl.*2 → lm !! i = Some i) →
+  lvl2var r = lvl2var s →
+  ∀ i v, lvl2var s !! i = Some v → ∃ j, lm !! i = Some j ∧ lvl2var r !! j = Some v.
+Proof.
+  intros HI Hvl Hlm El i v Hv. exists i. split; [|by rewrite El].
+  apply (lm_identity s vl lm HI Hvl Hlm). apply (inv_lvls _ HI). by eexists.
 Qed.
 
 (** ** 4. Loading a dump into a fresh manager *)
@@ -932,38 +883,243 @@ Proof.
     as (->&Eroots&Hvl&Hnf&_&_&Hrin&_).
   split; [done|].
   set (r := vstate (vars s) (lvl2var s) (nvars s)).
-  assert (Hrecv : recv s r).
-  { split_and!; try done. apply Inv_vstate; [apply (inv_vars _ HI)|apply (inv_lvls _ HI)]. }
+  assert (HIr : Inv r).
+  { apply Inv_vstate; [apply (inv_vars _ HI)|apply (inv_lvls _ HI)]. }
   assert (Hvars : forM (pf_vars pf) (fun '(v, l) => add_var v (Some l) ;;; ret tt) init
                   = (Ok tt, r)).
   { pose proof (init_levels_file s HI _ Hvl) as E. unfold init_levels in E.
     rewrite (valid_ordering_file s HI _ Hvl) in E. cbn [assert] in E.
     by rewrite (bind_ok _ _ init tt init) in E. }
-  destruct (load_pickle_from s pf roots init r HI Hr Eroots Hvl Hnf Hrin Hrecv Hvars)
-    as (roots'&s1&E&(HI1&Ev&El&_)&_&_&Hrel).
+  destruct (pickle_var_loop (length (pf_vars pf)) (pf_vars pf) init r ∅) as (lm&Elm&Hlm&_);
+    [|done|].
+  { intros v i. by apply (vfile_lt s). }
+  destruct (load_pickle_from s pf roots true init r lm HI Hr Eroots Hnf Hrin HIr Elm)
+    as (roots'&s1&E&HI1&(_&Ev&El)&_&Hrel).
+  { by apply (lm_true s (pf_vars pf)). }
   exists roots', s1. by split_and!.
 Qed.
 
 (** ** Loading into any consistent manager with the same variable order
-    (reordering disabled); the manager only grows *)
+    (dynamic reordering enabled or not); the manager only grows *)
 Theorem pickle_roundtrip_into s roots order vorder pf sd r :
   Inv s → Forall (valid s) (roots_values roots) →
   dump_pickle roots order vorder s = (Ok pf, sd) →
-  Inv r → vars r = vars s → lvl2var r = lvl2var s → last_len r = None →
+  Inv r → vars r = vars s → lvl2var r = lvl2var s →
   sd = s ∧
   ∃ roots' r', load_pickle pf true r = (Ok roots', r') ∧
-    Inv r' ∧ extends r r' ∧ frame r r' ∧
+    Inv r' ∧ extends r r' ∧ frame r r' ∧ last_len r' = last_len r ∧
     roots_rel (same_fun s r') roots roots'.
 Proof.
-  intros HI Hr Hd HIr Ev El Hoff.
+  intros HI Hr Hd HIr Ev El.
   destruct (dump_pickle_inv s roots order vorder pf sd HI Hr Hd)
     as (->&Eroots&Hvl&Hnf&_&_&Hrin&_).
   split; [done|].
-  assert (Hrecv : recv s r) by (by split_and!).
   assert (Hvars : forM (pf_vars pf) (fun '(v, l) => add_var v (Some l) ;;; ret tt) r
                   = (Ok tt, r)).
   { apply forM_add_var_idem. intros v i Hin. rewrite Ev. by apply Hvl. }
-  destruct (load_pickle_from s pf roots r r HI Hr Eroots Hvl Hnf Hrin Hrecv Hvars)
-    as (roots'&r'&E&(HI1&_)&He&Hf&Hrel).
-  exists roots', r'. by split_and!.
+  destruct (pickle_var_loop (length (pf_vars pf)) (pf_vars pf) r r ∅) as (lm&Elm&Hlm&_);
+    [|done|].
+  { intros v i. by apply (vfile_lt s). }
+  destruct (load_pickle_from s pf roots true r r lm HI Hr Eroots Hnf Hrin HIr Elm)
+    as (roots'&r'&E&HI1&He&Hf&Hrel).
+  { by apply (lm_true s (pf_vars pf)). }
+  exists roots', r'. split_and!; try done. apply Hf.
+Qed.
+
+(** ** 5. Loading a dump back into the manager that wrote it: exactly the
+    dumped references come back (canonicity); the manager only grows (the
+    loader creates the variable nodes and fills the computed table) *)
+Theorem pickle_roundtrip_same s roots order vorder pf sd :
+  Inv s → Forall (valid s) (roots_values roots) →
+  dump_pickle roots order vorder s = (Ok pf, sd) →
+  sd = s ∧
+  ∃ s', load_pickle pf true s = (Ok roots, s') ∧
+    Inv s' ∧ extends s s' ∧ frame s s' ∧ last_len s' = last_len s.
+Proof.
+  intros HI Hr Hd.
+  destruct (pickle_roundtrip_into s roots order vorder pf sd s HI Hr Hd HI eq_refl eq_refl)
+    as (->&roots'&s'&E&HI'&He&Hf&Hll&Hrel).
+  split; [done|]. exists s'. split_and!; try done.
+  rewrite E. f_equal. f_equal.
+  apply (roots_rel_eq (same_fun s s')); [|done].
+  intros u u' Hu [Hv' HD]. assert (Hv : valid s u) by (by eapply Forall_forall in Hr).
+  apply (canonical_names s' HI'); [done|by apply (valid_extends s s')|].
+  intros ρ. rewrite HD. symmetry.
+  apply (same_fun_extends s s s' u u HI He). by split.
+Qed.
+
+(** ** Loading with [levels=False]: the receiver keeps ITS variable order.
+    The variable loop declares the names the receiver does not know (below
+    the others) and reads the levels of those it knows. *)
+Lemma var_loop_false n (vl : list (nat * nat)) : ∀ r (lm0 : gmap nat nat),
+  Inv r → NoDup vl.*2 → (∀ v i, (v, i) ∈ vl → i < n) →
+  ∃ lm r', foldM (fun (lm : gmap nat nat) '(v, i) =>
+            assert (bool_decide (i < n)) ;;;
+            j <- add_var v None ;;
+            ret (<[i := j]> lm)) lm0 vl r = (Ok lm, r') ∧
+    Inv r' ∧ frame r r' ∧ vars r ⊆ vars r' ∧
+    (∀ v i, (v, i) ∈ vl → ∃ j, vars r' !! v = Some j ∧ lm !! i = Some j) ∧
+    (∀ i, i ∉ vl.*2 → lm !! i = lm0 !! i) ∧
+    (∀ u, valid r u → valid r' u ∧ ∀ ρ, denv r' u ρ = denv r u ρ) ∧
+    ((∀ v, v ∈ vl.*1 → is_Some (vars r !! v)) → r' = r) ∧
+    dom (vars r') = dom (vars r) ∪ list_to_set vl.*1 ∧
+    ((∀ v, v ∈ vl.*1 → vars r !! v = None) → NoDup vl.*1 →
+     ∀ k v, vl.*1 !! k = Some v → vars r' !! v = Some (nvars r + k)).
+Proof.
+  induction vl as [|[v i] vl IH]; intros r lm0 HIr ND Hn.
+  { exists lm0, r. split; [done|]. split; [done|]. split; [reflexivity|].
+    split; [done|]. split_and!; try done.
+    - intros ?? H. by apply elem_of_nil in H.
+    - cbn. by rewrite union_empty_r_L. }
+  cbn [fmap list_fmap] in ND. cbn in ND. apply NoDup_cons in ND as [Ni ND].
+  cbn [foldM].
+  assert (∃ j r1, add_var v None r = (Ok j, r1) ∧ Inv r1 ∧ frame r r1 ∧
+            vars r ⊆ vars r1 ∧ vars r1 !! v = Some j ∧
+            (∀ u, valid r u → valid r1 u ∧ ∀ ρ, denv r1 u ρ = denv r u ρ) ∧
+            (is_Some (vars r !! v) → r1 = r) ∧
+            dom (vars r1) = dom (vars r) ∪ {[v]} ∧
+            (vars r !! v = None → j = nvars r ∧ nvars r1 = S (nvars r) ∧
+                                  vars r1 = <[v := nvars r]> (vars r)))
+    as (j&r1&Ej&HI1&Hf1&Hs1&Hj&Hk1&Hid1&Hdom1&Hnew1).
+  { destruct (vars r !! v) as [l|] eqn:Hv.
+    - exists l, r. split; [apply (add_var_existing r v l None Hv); by left|].
+      split; [done|]. split; [reflexivity|]. split_and!; try done.
+      assert (v ∈ dom (vars r)) by (apply elem_of_dom; by eexists). set_solver.
+    - destruct (add_var v None r) as [rj r1] eqn:Ej.
+      destruct (add_var_new r v None rj r1 HIr Hv (or_introl eq_refl) Ej)
+        as (->&HI1&En1&Ev1&_&_&Hf1&_&Hk1).
+      exists (nvars r), r1. split; [done|]. split; [done|]. split; [done|]. split_and!.
+      + rewrite Ev1. by apply insert_subseteq.
+      + rewrite Ev1. by rewrite lookup_insert.
+      + intros u Hu. destruct (Hk1 u Hu) as (?&_&?). by split.
+      + by intros [? ?].
+      + rewrite Ev1, dom_insert_L. set_solver.
+      + done. }
+  assert (Estep : (assert (bool_decide (i < n)) ;;;
+                   j <- add_var v None ;; ret (<[i := j]> lm0)) r
+                  = (Ok (<[i := j]> lm0), r1)).
+  { rewrite bool_decide_eq_true_2 by (apply (Hn v); apply elem_of_list_here).
+    cbn [assert]. rewrite (bind_ok _ _ r tt r) by done. by rewrite (bind_ok _ _ _ _ _ Ej). }
+  rewrite (bind_ok _ _ _ _ _ Estep).
+  destruct (IH r1 (<[i := j]> lm0) HI1 ND)
+    as (lm&r'&El&HI'&Hf'&Hs'&Hlm&Hout&Hk'&Hid'&Hdom'&Hnew').
+  { intros v' i' Hin. apply (Hn v'). by apply elem_of_list_further. }
+  exists lm, r'. split; [done|]. split; [done|]. split; [by etrans|].
+  split; [by etrans|]. split_and!.
+  - intros v' i' Hin. apply elem_of_cons in Hin as [[= -> ->]|Hin]; [|by apply Hlm].
+    exists j. split; [by apply (lookup_weaken _ _ _ _ Hj Hs')|].
+    rewrite Hout by done. by rewrite lookup_insert.
+  - intros i' Hi'. cbn [fmap list_fmap] in Hi'. cbn in Hi'.
+    apply not_elem_of_cons in Hi' as [Hne Hni].
+    rewrite Hout by done. by rewrite lookup_insert_ne.
+  - intros u Hu. destruct (Hk1 u Hu) as [Hu1 HD1]. destruct (Hk' u Hu1) as [Hu' HD'].
+    split; [done|]. intros ρ. by rewrite HD', HD1.
+  - intros Hall. cbn [fmap list_fmap] in Hall. cbn in Hall.
+    assert (r1 = r) as -> by (apply Hid1, Hall, elem_of_list_here).
+    apply Hid'. intros v' Hv'. apply Hall. by apply elem_of_list_further.
+  - rewrite Hdom', Hdom1. cbn [fmap list_fmap]. cbn. set_solver.
+  - cbn [fmap list_fmap]. cbn. intros Hnone ND1. apply NoDup_cons in ND1 as [Nv ND1].
+    destruct (Hnew1 (Hnone v (elem_of_list_here _ _))) as (->&En1&Ev1).
+    intros [|k] v' Hk; cbn in Hk.
+    + injection Hk as <-. rewrite Nat.add_0_r. by apply (lookup_weaken _ _ _ _ Hj Hs').
+    + assert (Hnone1 : ∀ x, x ∈ vl.*1 → vars r1 !! x = None).
+      { intros x Hx. rewrite Ev1, lookup_insert_ne; [apply Hnone; by apply elem_of_list_further|].
+        by intros <-. }
+      rewrite (Hnew' Hnone1 ND1 k v' Hk). f_equal. lia.
+Qed.
+
+(** ** Loading with [levels=False] into ANY consistent manager, whatever
+    variables it declares and in whatever order, dynamic reordering enabled
+    or not: the load succeeds; the variables of the receiver keep their
+    levels, its references their meaning; the variables it does not know are
+    declared below the others (in the iteration order of the file when it
+    knows none of them); the roots denote the same functions of the variable
+    names.  When the receiver declares every variable of the file it only
+    grows. *)
+Theorem pickle_roundtrip_any s roots order vorder pf sd r :
+  Inv s → Forall (valid s) (roots_values roots) →
+  dump_pickle roots order vorder s = (Ok pf, sd) →
+  Inv r →
+  sd = s ∧
+  ∃ roots' r', load_pickle pf false r = (Ok roots', r') ∧
+    Inv r' ∧ frame r r' ∧ last_len r' = last_len r ∧
+    vars r ⊆ vars r' ∧ dom (vars r') = dom (vars r) ∪ dom (vars s) ∧
+    (∀ u, valid r u → valid r' u ∧ ∀ ρ, denv r' u ρ = denv r u ρ) ∧
+    roots_rel (same_fun s r') roots roots' ∧
+    (dom (vars s) ⊆ dom (vars r) → extends r r') ∧
+    (dom (vars s) ## dom (vars r) →
+     ∀ k v, vorder !! k = Some v → vars r' !! v = Some (nvars r + k)).
+Proof.
+  intros HI Hr Hd HIr.
+  destruct (dump_pickle_inv s roots order vorder pf sd HI Hr Hd)
+    as (->&Eroots&Hvl&Hnf&_&Evo&Hrin&_).
+  split; [done|].
+  destruct (var_loop_false (length (pf_vars pf)) (pf_vars pf) r ∅ HIr)
+    as (lm&r1&Elm&HI1&Hf1&Hs1&Hlm&_&Hk1&Hid1&Hdom1&Hnew1).
+  { by apply (vfile_NoDup2 s). }
+  { intros v i. by apply (vfile_lt s). }
+  destruct (load_pickle_from s pf roots false r r1 lm HI Hr Eroots Hnf Hrin HI1 Elm)
+    as (roots'&r'&E&HI'&He&Hf&Hrel).
+  { intros i v Hv. apply (inv_vars _ HI) in Hv.
+    destruct (Hlm v i) as (j&Hj&Hlj); [by apply Hvl|].
+    exists j. split; [done|]. by apply (inv_vars _ HI1). }
+  assert (Hin : ∀ v, v ∈ (pf_vars pf).*1 ↔ v ∈ dom (vars s)).
+  { intros v. rewrite elem_of_dom, elem_of_list_fmap. split.
+    - intros ([v' i]&->&Hin). exists i. by apply Hvl.
+    - intros [i Hi]. exists (v, i). split; [done|]. by apply Hvl. }
+  assert (Ev1 : vars r' = vars r1) by (by destruct He as (_&->&_)).
+  exists roots', r'. split; [done|]. split; [done|]. split; [by etrans|].
+  split; [rewrite (proj1 Hf); apply Hf1|]. split_and!.
+  - by rewrite Ev1.
+  - rewrite Ev1, Hdom1. apply stdpp.sets.set_eq. intros v.
+    rewrite !elem_of_union, elem_of_list_to_set. by rewrite Hin.
+  - intros u Hu. destruct (Hk1 u Hu) as [Hu1 HD1]. split; [by apply (valid_extends r1 r')|].
+    intros ρ. rewrite <- HD1.
+    apply (same_fun_extends r1 r1 r' u u HI1 He). by split.
+  - done.
+  - intros Hdom. assert (r1 = r) as <-; [|done]. apply Hid1.
+    intros v Hv. apply elem_of_dom, Hdom. by apply Hin.
+  - intros Hdisj k v Hk. rewrite Ev1. rewrite <- Evo in Hk. apply Hnew1; [|apply Hvl|done].
+    intros v' Hv'. apply Hin in Hv'. apply not_elem_of_dom. intros ?. by apply (Hdisj v').
+Qed.
+
+(** ** Loading with [levels=False] into a consistent manager that declares
+    every variable of the file, in ANY order (and possibly others) *)
+Theorem pickle_roundtrip_other_order s roots order vorder pf sd r :
+  Inv s → Forall (valid s) (roots_values roots) →
+  dump_pickle roots order vorder s = (Ok pf, sd) →
+  Inv r → dom (vars s) ⊆ dom (vars r) →
+  sd = s ∧
+  ∃ roots' r', load_pickle pf false r = (Ok roots', r') ∧
+    Inv r' ∧ extends r r' ∧ frame r r' ∧
+    vars r' = vars r ∧ lvl2var r' = lvl2var r ∧ last_len r' = last_len r ∧
+    roots_rel (same_fun s r') roots roots'.
+Proof.
+  intros HI Hr Hd HIr Hdom.
+  destruct (pickle_roundtrip_any s roots order vorder pf sd r HI Hr Hd HIr)
+    as (->&roots'&r'&E&HI'&Hf&Hll&_&_&_&Hrel&He&_).
+  split; [done|]. exists roots', r'. specialize (He Hdom).
+  pose proof He as (_&Ev&El). by split_and!.
+Qed.
+
+(** ** Loading with [levels=False] into a fresh manager ([BDD()]): the
+    variables are declared in the iteration order [vorder] of the file,
+    whatever their levels in the source *)
+Theorem pickle_roundtrip_fresh_names s roots order vorder pf sd :
+  Inv s → Forall (valid s) (roots_values roots) →
+  dump_pickle roots order vorder s = (Ok pf, sd) →
+  sd = s ∧
+  ∃ roots' s1, load_pickle pf false init = (Ok roots', s1) ∧
+    Inv s1 ∧ dom (vars s1) = dom (vars s) ∧
+    (∀ k v, vorder !! k = Some v → vars s1 !! v = Some k) ∧
+    roots_rel (same_fun s s1) roots roots'.
+Proof.
+  intros HI Hr Hd.
+  destruct (pickle_roundtrip_any s roots order vorder pf sd init HI Hr Hd Inv_init)
+    as (->&roots'&s1&E&HI1&_&_&_&Hdom&_&Hrel&_&Hnew).
+  split; [done|]. exists roots', s1. split_and!; try done.
+  - rewrite Hdom. change (vars init) with (∅ : gmap nat nat).
+    by rewrite dom_empty_L, union_empty_l_L.
+  - intros k v Hk. rewrite (Hnew ltac:(change (vars init) with (∅ : gmap nat nat); set_solver) k v Hk).
+    done.
 Qed.
